@@ -825,3 +825,113 @@ Proof.
 Qed.
 
 End NmtOrdered.
+
+(* ====================================================================== *)
+(* The property at the level of a square                                   *)
+(* ====================================================================== *)
+
+Section Square.
+Variable H : bytes -> bytes.
+Local Notation hn := (hash_node_o H).
+Local Notation er := (Ok (nmt_empty_root H)).
+
+Lemma nth_error_in {A} (l : list A) j x : nth_error l j = Some x -> In x l.
+Proof. apply nth_error_In. Qed.
+
+(* A square of side s = 2^kk (row-major list of s*s shares) holds the blob's shares at
+   index i, a multiple of the blob's subtree width w <= s.  Then every chunk lies in one
+   row, and the j-th subtree root of the blob alone IS the inner node of that row's tree
+   over the chunk's shares. *)
+Theorem subtree_roots_in_square b thr roots (sq : list share) kk (i : N) :
+  blob_ok b -> 1 <= thr -> subtree_roots H b thr = Ok roots ->
+  let shares := blob_spec b in
+  let n := lenN shares in
+  let w := subtree_width n thr in
+  let s := N.of_nat (2 ^ kk) in
+  length sq = (2 ^ kk * 2 ^ kk)%nat ->
+  i mod w = 0 -> w <= s ->
+  takeN n (dropN i sq) = shares ->
+  forall j o m, nth_error (offsets 0 (mmr_sizes n w)) j = Some (o, m) ->
+  exists root, nth_error roots j = Some root /\
+    (i + o) / s = (i + o + m - 1) / s /\
+    inner_node hn er (nmt_leaf_hashes H (row_leaves (takeN s (dropN ((i + o) / s * s) sq))))
+               ((i + o) mod s) m = Some (Ok root).
+Proof.
+  intros Hok Ht Hroots shares n w s Hsq Hi Hws Hat j o m Hj.
+  destruct (subtree_root_is_row_node H b thr roots Hok Ht Hroots) as [_ Hall].
+  fold shares n w in Hall. destruct (Hall j o m Hj) as (root & Hr & Hnode).
+  exists root. split; [exact Hr|].
+  assert (Hps : pow2 s) by (exists (N.of_nat kk); unfold s; apply of_nat_pow2).
+  pose proof (chunks_in_row n thr i s Ht Hi Hps Hws o m (nth_error_in _ _ _ Hj))
+    as (Hpm & Hmw & Hom & Hxm & Hrow & Hfit & Hcm).
+  split; [exact Hrow|].
+  pose proof (pow2_pos m Hpm) as Hmpos. pose proof (pow2_pos s Hps) as Hspos.
+  destruct Hpm as [ke Hke].
+  set (e := N.to_nat ke).
+  assert (Hm : m = N.of_nat (2 ^ e)) by (rewrite of_nat_pow2; unfold e; rewrite N2Nat.id; exact Hke).
+  assert (He : (e <= kk)%nat).
+  { assert (Hle : 2 ^ ke <= 2 ^ N.of_nat kk) by (rewrite <- Hke, <- of_nat_pow2; fold s; lia).
+    apply pow2_le_exp in Hle. unfold e. lia. }
+  set (x := i + o) in *. set (c := x mod s) in *. set (r := x / s) in *.
+  assert (Hx : x = r * s + c) by (unfold r, c; rewrite (N.mul_comm (x / s) s); apply N.div_mod; lia).
+  set (p := N.to_nat (c / m)).
+  assert (Hc : c = N.of_nat (p * 2 ^ e)).
+  { rewrite Nat2N.inj_mul, <- Hm. unfold p. rewrite N2Nat.id.
+    rewrite (N.div_mod c m) at 1 by lia. rewrite Hcm. lia. }
+  (* the length of the square: the blob fits *)
+  assert (Hn : (N.to_nat i + N.to_nat n <= length sq)%nat).
+  { apply (f_equal (@length _)) in Hat. unfold takeN, dropN in Hat. rewrite firstn_length, skipn_length in Hat.
+    assert (N.to_nat n = length shares) by (unfold n, lenN; apply Nat2N.id). lia. }
+  assert (HS : N.to_nat s = (2 ^ kk)%nat) by (unfold s; apply Nat2N.id).
+  pose proof (nat_pow2_pos kk) as HKpos. pose proof (nat_pow2_pos e) as HEpos.
+  assert (HM : N.to_nat m = (2 ^ e)%nat) by (rewrite Hm; apply Nat2N.id).
+  assert (Hrs : (N.to_nat r * 2 ^ kk + 2 ^ kk <= length sq)%nat).
+  { assert (Hxlt : (N.to_nat x < 2 ^ kk * 2 ^ kk)%nat) by (unfold x; lia).
+    assert (Hxr : (N.to_nat x = N.to_nat r * 2 ^ kk + N.to_nat c)%nat) by (rewrite Hx at 1; rewrite N2Nat.inj_add, N2Nat.inj_mul, HS; reflexivity).
+    assert (Hrlt : (N.to_nat r < 2 ^ kk)%nat) by nia.
+    rewrite Hsq. nia. }
+  set (row := takeN s (dropN (r * s) sq)).
+  assert (Hrowlen : length row = (2 ^ kk)%nat).
+  { unfold row, takeN, dropN. rewrite firstn_length, skipn_length, N2Nat.inj_mul, HS. lia. }
+  assert (Hsplit : (2 ^ kk = 2 ^ (kk - e) * 2 ^ e)%nat) by (rewrite <- Nat.pow_add_r; f_equal; lia).
+  assert (Hcn : N.to_nat c = (p * 2 ^ e)%nat) by (rewrite Hc at 1; apply Nat2N.id).
+  assert (Hfitn : (p * 2 ^ e + 2 ^ e <= 2 ^ kk)%nat) by (rewrite <- Hcn, <- HM, <- HS; lia).
+  assert (Hp : (p < 2 ^ (kk - e))%nat) by (rewrite Hsplit in Hfitn; nia).
+  rewrite Hc. apply (Hnode row kk e p Hrowlen Hm He Hp).
+  (* the shares of the row at that offset are the chunk's shares *)
+  unfold row, takeN, dropN. rewrite HS, HM.
+  rewrite firstn_skipn_firstn by exact Hfitn. rewrite skipn_skipn_add.
+  rewrite <- Hat. unfold takeN, dropN. rewrite firstn_skipn_firstn by lia. rewrite skipn_skipn_add.
+  f_equal. f_equal.
+  assert (Hxr : (N.to_nat x = N.to_nat r * 2 ^ kk + N.to_nat c)%nat) by (rewrite Hx at 1; rewrite N2Nat.inj_add, N2Nat.inj_mul, HS; reflexivity).
+  rewrite N2Nat.inj_mul, HS, <- Hcn. unfold x in Hxr. lia.
+Qed.
+
+(* Consequently the commitment computed from the blob alone is the merkle root function
+   applied to the row-tree inner nodes of ANY square holding the blob at an aligned
+   index: it does not depend on the position or on the neighbours. *)
+Theorem commitment_from_rows mrf b thr cm (sq : list share) kk (i : N) :
+  blob_ok b -> 1 <= thr -> create_commitment H mrf b thr = Ok cm ->
+  let shares := blob_spec b in
+  let n := lenN shares in
+  let w := subtree_width n thr in
+  let s := N.of_nat (2 ^ kk) in
+  length sq = (2 ^ kk * 2 ^ kk)%nat -> i mod w = 0 -> w <= s -> takeN n (dropN i sq) = shares ->
+  exists nodes,
+    cm = mrf nodes /\ length nodes = length (mmr_sizes n w) /\
+    forall j o m, nth_error (offsets 0 (mmr_sizes n w)) j = Some (o, m) ->
+    exists node, nth_error nodes j = Some node /\
+      inner_node hn er (nmt_leaf_hashes H (row_leaves (takeN s (dropN ((i + o) / s * s) sq))))
+                 ((i + o) mod s) m = Some (Ok node).
+Proof.
+  intros Hok Ht Hcm shares n w s Hsq Hi Hws Hat.
+  unfold create_commitment in Hcm. destruct (subtree_roots H b thr) as [roots| |] eqn:Hroots; cbn [bind] in Hcm; try discriminate.
+  inversion Hcm; subst cm. exists roots. split; [reflexivity|].
+  destruct (subtree_root_is_row_node H b thr roots Hok Ht Hroots) as [Hlen _].
+  fold shares n w in Hlen. rewrite offsets_length in Hlen. split; [exact Hlen|].
+  intros j o m Hj.
+  destruct (subtree_roots_in_square b thr roots sq kk i Hok Ht Hroots Hsq Hi Hws Hat j o m Hj) as (root & Hr & _ & Hnode).
+  exists root. split; assumption.
+Qed.
+
+End Square.
